@@ -48,7 +48,9 @@ func (p c03) Run(c *core.Ctx) {
 		}
 		// the component requests itself: by name on a free interface slot, or by type when it is the only implementer
 		ti := world.Palette[sc.Nodes[i].Type]
-		slots := g.FreeSlots(i, func(si world.SlotInfo) bool { return si.Kind == "iface" && si.Iface != "any" && ti.Implements(si.Iface) })
+		slots := g.FreeSlots(i, func(si world.SlotInfo) bool {
+			return si.Kind == "iface" && si.Iface != "any" && ti.Implements(si.Iface)
+		})
 		if len(slots) == 0 {
 			continue
 		}
